@@ -25,6 +25,9 @@ def named_const(e, c):
     m = re.match(r'^(.*) as f64 \(IntToFloat$', c)
     tbl = {
         'std::f64::consts::PI': PI, 'std::f64::consts::E': E_, 'f64::consts::PI': PI, 'f64::consts::E': E_,
+        'f64::EPSILON': fp_const(2.220446049250313e-16), 'core::f64::<impl f64>::EPSILON': fp_const(2.220446049250313e-16), 'std::f64::EPSILON': fp_const(2.220446049250313e-16),
+        'f64::MAX': fp_const(1.7976931348623157e308), 'core::f64::<impl f64>::MAX': fp_const(1.7976931348623157e308), 'f64::MIN': fp_const(-1.7976931348623157e308),
+        'core::f64::<impl f64>::MIN': fp_const(-1.7976931348623157e308), 'f64::MIN_POSITIVE': fp_const(2.2250738585072014e-308), 'core::f64::<impl f64>::MIN_POSITIVE': fp_const(2.2250738585072014e-308),
         'f64::INFINITY': fp_const(float('inf')), 'f64::NEG_INFINITY': fp_const(float('-inf')), 'f64::NAN': fp_const(float('nan')),
         'core::f64::<impl f64>::INFINITY': fp_const(float('inf')), 'core::f64::<impl f64>::NEG_INFINITY': fp_const(float('-inf')),
         'core::f64::<impl f64>::NAN': fp_const(float('nan')),
@@ -725,8 +728,14 @@ def _(e, st, raw, n, a, m):
 @summary(r'^String::len$|^core::str::<impl str>::len$')
 def _(e, st, raw, n, a, m):
     s = sv(e, st, a[0])[1]
-    if any(is_sym(c) for c in s): raise Unsupported('byte length of a symbolic string')
-    return [(T, len(''.join(chr(c) for c in s).encode('utf-8')))]
+    n = 0
+    for c in s:
+        if is_sym(c):
+            # one byte when the character is ASCII under the path condition (digits, points, ...)
+            if e.check(c >= 128) != z3.unsat: raise Unsupported('byte length of a symbolic string with a possibly non-ASCII character')
+            n += 1
+        else: n += len(chr(c).encode('utf-8'))
+    return [(T, n)]
 
 
 @summary(r'^String::is_empty$|^core::str::<impl str>::is_empty$')
@@ -987,6 +996,13 @@ def _(e, st, raw, n, a, m):
 @summary(r'^<(.*) as PartialOrd>::(lt|le|gt|ge)$')
 def _(e, st, raw, n, a, m):
     ty, op = m.group(1), m.group(2)
+    base = ty.lstrip('&').strip()
+    if base in INT_TYPES:
+        x = deref_all(e, st, a[0]); y = deref_all(e, st, a[1])
+        return [(T, i_cmp({'lt': 'Lt', 'le': 'Le', 'gt': 'Gt', 'ge': 'Ge'}[op], x, y, base))]
+    if base == 'f64':
+        x = deref_all(e, st, a[0]); y = deref_all(e, st, a[1])
+        return [(T, {'lt': z3.fpLT, 'le': z3.fpLEQ, 'gt': z3.fpGT, 'ge': z3.fpGEQ}[op](x, y))]
     if 'Decimal' in ty:
         x = deref_all(e, st, a[0]); y = deref_all(e, st, a[1])
         return [(T, dec_pred(op, x, y))]
@@ -1300,6 +1316,30 @@ def _(e, st, raw, n, a, m):
     outs = [(c, v) for c, v in outs if c is not False]
     if any(c is True for c, _ in outs): return [(T, [v for c, v in outs if c is True][0])]
     return outs
+
+
+@summary(r'^<std::ops::Range(Inclusive)?<(\w+)> as Iterator>::(fold|for_each|try_fold)$')
+def _(e, st, raw, n, a, m):
+    """fold / for_each over an integer range: the crate's closure is called once per element (each call is a counted step)"""
+    inclusive, ty, meth = bool(m.group(1)), m.group(2), m.group(3)
+    if meth == 'try_fold': raise Unsupported('try_fold over a range')
+    rng = a[0]
+    if inclusive: lo, hi = rng[1], rng[2]
+    else: lo, hi = rng[3][0], rng[3][1]
+    init = a[1] if meth == 'fold' else UNIT
+    f = a[2] if meth == 'fold' else a[1]
+
+    def step(s2, acc, i):
+        c = i_cmp('Le' if inclusive else 'Lt', i, hi, ty)
+
+        def body(s3):
+            s3.steps += 1
+            nxt = i_arith('Add', i, 1, ty)[0]
+            return call_closure(e, f, [acc, i] if meth == 'fold' else [i], lambda s4, r: step(s4, r if meth == 'fold' else UNIT, nxt))
+        if c is True: return body(s2)
+        if c is False: return acc
+        return [(c, body), (b_not(c), acc)]
+    return [(T, lambda s2: step(s2, init, lo))]
 
 
 @summary(r'^std::ops::RangeInclusive::contains$|^std::ops::RangeInclusive::<.*>::contains$')
